@@ -466,7 +466,7 @@ def _run_call(world: _World, cfg: dict, items: list[dict], fracs: list[float], u
 INVS = ["InvSendsBounded", "InvResendOnlyAfterRetryable", "InvSleepWithinBackoffMax", "InvExchangeSentOnce",
         "InvCancelSentOnce", "InvSane"]
 QUICK_SLICES = ("main", "statuses", "stream", "deep", "calls", "streamops")
-THOROUGH_SLICES = ("main", "ra_depth", "status_breadth", "backoff_breadth", "statuses", "stream_full", "deep", "calls",
+THOROUGH_SLICES = ("ra_depth", "status_breadth", "backoff_breadth", "statuses", "stream_full", "deep", "calls",
                    "streamops")
 
 
